@@ -211,6 +211,13 @@ class World:
         Q = rec.mul(d.c, dd, d.G)
         if how == "obj":
             vk = VerifyingKey.from_string(_pt_bytes(d, Q, "raw"), curve=d.lib)
+            if dd % 3 == 1:
+                vk.precompute(lazy=bool(dd % 2))        # the key was prepared for bulk verification before
+            elif dd % 3 == 2:
+                try:
+                    vk.verify(b"\x01" * (2 * ((d.n.bit_length() + 7) // 8)), b"x")
+                except Exception:
+                    pass                                 # (an invalid signature; the key object has been used)
             call = lambda: self.real.load_received_public_key(vk)
             key_curve, key_Q = cname, Q
         elif how in ("raw", "uncompressed", "compressed", "hybrid"):
